@@ -42,6 +42,47 @@ def UdpQ.process (s : UdpQ) : Option UdpQ :=
   | [] => none
   | p :: rest => some { s with queue := rest, handled := s.handled ++ datagramLines p }
 
+/-! ### The UDP `Listen` loop with its processing goroutine held back
+
+`Listen` starts `ProcessUdpPacketQueue` and then reads datagrams; the processing goroutine takes a packet off the queue
+and is inside `HandlePacket` (here: held on the packet's first line by the test rig, in production: busy) while further
+datagrams arrive. So besides the `cap` packets in the channel there is one packet *in flight*. -/
+
+structure UdpL where
+  cap : Nat
+  inflight : Option Bytes := none  -- the packet the processing goroutine holds
+  queue : List Bytes := []         -- the channel, oldest first
+  packets : Nat := 0
+  drops : Nat := 0
+  handled : List Bytes := []
+
+/-- a datagram arrives: an idle processing goroutine takes it at once (through the channel), otherwise it waits in the
+    channel if there is room, otherwise it is dropped and counted -/
+def UdpL.recv (s : UdpL) (buf : Bytes) (n : Nat) : UdpL :=
+  let s := { s with packets := s.packets + 1 }
+  match s.inflight with
+  | none => if s.queue.isEmpty then { s with inflight := some (buf.take n) }
+            else if s.queue.length < s.cap then { s with queue := s.queue ++ [buf.take n] }
+            else { s with drops := s.drops + 1 }
+  | some _ => if s.queue.length < s.cap then { s with queue := s.queue ++ [buf.take n] }
+              else { s with drops := s.drops + 1 }
+
+/-- the held packet is let through: its lines are handed on, and the goroutine takes the next packet off the channel -/
+def UdpL.release (s : UdpL) : Option UdpL :=
+  match s.inflight with
+  | none => none
+  | some p =>
+    match s.queue with
+    | [] => some { s with inflight := none, handled := s.handled ++ datagramLines p }
+    | q :: rest => some { s with inflight := some q, queue := rest, handled := s.handled ++ datagramLines p }
+
+/-- the abstraction: the packet in flight is the head of the longer queue -/
+def UdpL.abs (s : UdpL) : UdpQ :=
+  { cap := s.cap + 1, queue := s.inflight.toList ++ s.queue, packets := s.packets, drops := s.drops, handled := s.handled }
+
+/-- an idle processing goroutine leaves nothing in the channel -/
+def UdpL.Inv (s : UdpL) : Prop := s.inflight = none → s.queue = []
+
 /-! ### TCP: bufio.Reader.ReadLine over chunks -/
 
 structure RdSt where
